@@ -69,7 +69,9 @@ def _docstring(r: Any, fmt: str, n0: int, params: List[str], allow_param: bool, 
     def tok() -> str:
         n[0] += 1
         return f'q{n[0]}'
-    xref = (lambda t: f'L{{nosuch_{t}}}') if fmt == 'epytext' else (lambda t: f'`nosuch_{t}`')
+    # (a quarter of the unresolvable targets are dotted names under a root that is not documented)
+    tgt = lambda t: f'nosuchlib.helpers.T_{t}' if int(t[1:]) % 4 == 0 else f'nosuch_{t}'  # noqa: E731
+    xref = (lambda t: f'L{{{tgt(t)}}}') if fmt == 'epytext' else (lambda t: f'`{tgt(t)}`')
     # (epytext: a word may hold a character that some line-splitting routines take for a line end -- the
     # information separators, NEL, LINE/PARAGRAPH SEPARATOR --; the lines of a docstring are those of its source file)
     odd = (lambda: r.choice(['\x1c', '\x1d', '\x1e', '\x85', '\u2028', '\u2029']) if fmt == 'epytext' and r.random() < .04 else '')  # noqa: E731
